@@ -98,3 +98,28 @@ package adapter
 //@   loop 2 invariant a.packets == snap(a.packets) && i < len(a.packets) && gnow() >= snap(gnow())
 //@   loop 2 invariant forall q PrivateSessionID :: (q in a.sessions) ==> (q in snap(a.sessions)) && a.sessions[q] == snap(a.sessions[q])
 //@   loop 2 invariant forall q PrivateSessionID :: (q in snap(a.sessions)) && !(q in a.sessions) ==> gnow() > tns(snap(a.sessions[q]).DisconnectedAt) + a.maxDisconnectDuration
+
+// ---------------------------------------------------------------------------------------------
+// C16. Lock discipline: which mutex guards which fields (every read/write of a guarded field outside the constructor
+// needs that mutex of the same object; checked in lock mode over every function of the package).
+//@ type inMemoryAdapter
+//@   guarded_by (mu) rooms, sids
+//@ type sessionAwareAdapter
+//@   guarded_by (mu) sessions, packets
+//@ type TestSocketStore
+//@   guarded_by (mu) sockets
+
+// Helpers and set-iteration callbacks that run inside their caller's critical section of a.mu (the callbacks are
+// called synchronously by mapset's Each: assumed contract of Each); callers owe the lock (checked at static calls).
+//@ func (*inMemoryAdapter).delete
+//@   holds a.mu
+//@ func (*inMemoryAdapter).computeExceptSids
+//@   holds a.mu
+//@ func (*inMemoryAdapter).computeExceptSids$1
+//@   holds a.mu
+//@ func (*inMemoryAdapter).DeleteAll$1
+//@   holds a.mu
+//@ func (*inMemoryAdapter).apply$1
+//@   holds a.mu
+//@ func (*inMemoryAdapter).apply$1$1
+//@   holds a.mu
